@@ -19,7 +19,6 @@
 package commonmark
 
 import (
-	"bytes"
 	"fmt"
 	"html"
 	"io"
@@ -406,81 +405,54 @@ func (r *renderState) postInline(source []byte, inline *Inline) bool {
 //
 // It cannot use a conventional HTML parser,
 // since raw HTML in Markdown may be incomplete or start in the middle of a tag.
+// For the same reason it does not try to track comments, CDATA sections,
+// declarations or quoted attribute values:
+// what a browser makes of those depends on text outside this piece of raw HTML
+// (and differs from CommonMark's own definitions, e.g. for "<!-->").
+// Instead, like the GFM reference implementation,
+// it considers every "<" or "</" that is followed by a tag name.
+// An HTML tokenizer can only start a tag at such a position,
+// so no element rejected by FilterTag can be opened,
+// whatever state the tokenizer is in.
 func (r *renderState) filterRaw(rawHTML []byte) {
-	const (
-		copyState = iota
-		commentState
-		piState
-		declState
-		cdataState
-	)
-	state := copyState
 	copyStart := 0
-	for i := 0; i < len(rawHTML); {
-		switch state {
-		case copyState:
-			if rawHTML[i] == '<' {
-				switch {
-				case hasBytePrefix(rawHTML[i:], cdataPrefix):
-					state = cdataState
-					i += len(cdataPrefix)
-				case hasBytePrefix(rawHTML[i:], htmlCommentPrefix):
-					state = commentState
-					i += len(htmlCommentPrefix)
-				case hasHTMLDeclarationPrefix(rawHTML[i:]):
-					state = declState
-					i += len("<!x")
-				default:
-					tagNameStart := i + 1
-					tagEnd := len(rawHTML)
-					if j := bytes.IndexByte(rawHTML[tagNameStart:], '>'); j >= 0 {
-						tagEnd = tagNameStart + j + len(">")
-					}
-					tagNameEnd := tagNameStart + htmlTagNameEnd(rawHTML[tagNameStart:tagEnd])
-					tagName := maybeLower(rawHTML[tagNameStart:tagNameEnd], &r.lowerBuf)
-					if r.FilterTag(tagName) {
-						r.dst = append(r.dst, rawHTML[copyStart:i]...)
-						r.dst = append(r.dst, "&lt;"...)
-						r.dst = append(r.dst, rawHTML[tagNameStart:tagEnd]...)
-						copyStart = tagEnd
-					}
-					i = tagEnd
-				}
-			} else {
-				i++
-			}
-		case commentState:
-			if hasBytePrefix(rawHTML[i:], htmlCommentSuffix) {
-				state = copyState
-				i += len(htmlCommentSuffix)
-			} else {
-				i++
-			}
-		case piState:
-			if hasBytePrefix(rawHTML[i:], processingInstructionSuffix) {
-				state = copyState
-				i += len(processingInstructionSuffix)
-			} else {
-				i++
-			}
-		case declState:
-			if rawHTML[i] == '>' {
-				state = copyState
-			}
-			i++
-		case cdataState:
-			if hasBytePrefix(rawHTML[i:], cdataSuffix) {
-				state = copyState
-				i += len(cdataSuffix)
-			} else {
-				i++
-			}
-		default:
-			panic("unreachable")
+	for i := 0; i < len(rawHTML); i++ {
+		if rawHTML[i] != '<' {
+			continue
+		}
+		tagNameStart := i + 1
+		if tagNameStart < len(rawHTML) && rawHTML[tagNameStart] == '/' {
+			// Closing tag.
+			tagNameStart++
+		}
+		tagNameEnd := tagNameStart + filterTagNameEnd(rawHTML[tagNameStart:])
+		if tagNameEnd == tagNameStart {
+			continue
+		}
+		tagName := maybeLower(rawHTML[tagNameStart:tagNameEnd], &r.lowerBuf)
+		if r.FilterTag(tagName) {
+			r.dst = append(r.dst, rawHTML[copyStart:i]...)
+			r.dst = append(r.dst, "&lt;"...)
+			copyStart = i + 1
 		}
 	}
-
 	r.dst = append(r.dst, rawHTML[copyStart:]...)
+}
+
+// filterTagNameEnd returns the length of the tag name at the beginning of b
+// as an HTML tokenizer reads it:
+// an ASCII letter followed by anything up to white space, "/" or ">".
+func filterTagNameEnd(b []byte) int {
+	if len(b) == 0 || !isASCIILetter(b[0]) {
+		return 0
+	}
+	for i := 1; i < len(b); i++ {
+		switch b[i] {
+		case ' ', '\t', '\n', '\f', '\r', '/', '>':
+			return i
+		}
+	}
+	return len(b)
 }
 
 func appendAltText(dst []byte, source []byte, parent *Inline) []byte {
